@@ -32,6 +32,16 @@ def first_wins_guard(M):
                                                                 or (isinstance(c.func, ast.Attribute) and c.func.attr in ("sort", "reverse", "shuffle")))
                                   and any(isinstance(x, ast.Name) and x.id in ("normalizers", "representations") for x in ast.walk(c))
                                   for c in body)
+    # every normalizer yields exactly one ranked candidate: the append is unconditional in the construction loop
+    facts["every_candidate_ranked"] = False
+    for lp in body:
+        if isinstance(lp, ast.For) and norm(lp.iter) == "normalizers":
+            apps = [c for c in ast.walk(lp) if isinstance(c, ast.Call) and isinstance(c.func, ast.Attribute) and c.func.attr == "append"
+                    and norm(c.func.value) == "representations"]
+            if apps:
+                top = [st for st in lp.body if any(c is apps[0] for c in ast.walk(st))]
+                skips = [x for x in ast.walk(lp) if isinstance(x, (ast.Continue, ast.Break))]
+                facts["every_candidate_ranked"] = bool(top) and isinstance(top[0], ast.Expr) and not skips
     picks = [s for s in body if isinstance(s, ast.Assign) and norm(s.targets[0]) == "best_representation"
              and isinstance(s.value, ast.Subscript)]
     facts["takes_first"] = bool(picks) and all(norm(s.value) == "representations[0]" for s in picks)
@@ -328,6 +338,14 @@ def run(rep, ctx):
     with rep.guard("R05.4"):
         from .. import symrules as _SR
         _SR.reset_covers_caches(rep, ctx.model, "R05.4")
+    rep.rule("R05.7", "the symmetry tolerance given to the analyzer reaches spglib (through segfault_protect)")
+    with rep.guard("R05.7"):
+        from .. import symrules as _SR2
+        _SR2.tolerance_reaches_spglib(rep, ctx.model, "R05.7")
+    rep.rule("R05.8", "cached systems handed out by the analyzer are never modified afterwards")
+    with rep.guard("R05.8"):
+        from .. import symrules as _SR3
+        _SR3.handed_out_objects_not_mutated(rep, ctx.model, "R05.8")
     rep.floor("R05.1", 65)
     rep.floor("R05.2", 2400)
     rep.floor("R05.3", 7)
